@@ -19,8 +19,9 @@ EXTENDS MeshOps, Json
 
 CONSTANTS NSlots, Depth, Ops
 
-VARIABLES pool, hist
-vars == <<pool, hist>>
+VARIABLES pool, hist,
+          noop      \* the last step left the pool unchanged (no result, or the contract says it fails)
+vars == <<pool, hist, noop>>
 
 Slots == 1..NSlots
 P(x, y, z) == <<x * Q, y * Q, z * Q>>
@@ -119,7 +120,7 @@ Candidates ==
     \* chains): their result is dropped by the generator, but frame and well-formedness are judged
     \cup UNION {NoRes("Misc", [kind |-> kd, k |-> 1 + (kd % 2)]) : kd \in 1..11}
 
-Init == pool = [s \in Slots |-> NullMesh] /\ hist = <<>>
+Init == pool = [s \in Slots |-> NullMesh] /\ hist = <<>> /\ noop = FALSE
 
 Do(st) ==
     /\ st.op \in Ops
@@ -136,8 +137,12 @@ Do(st) ==
             ELSE IF IsFail(r) THEN pool' = pool       \* the contract says the call FAILS: nothing is stored
             ELSE IsMesh(r) /\ Len(r.idx) <= 12 /\ pool' = [pool EXCEPT ![st.dst] = r]
     /\ hist' = Append(hist, st)
+    /\ noop' = (pool' = pool)
 
-Next == Len(hist) < Depth /\ \E st \in Candidates : Do(st)
+\* Steps that leave the pool unchanged all lead to the same pool: the VIEW keeps them apart by their last step
+\* (otherwise only ONE exporter / scan / failing call per pool state would ever be emitted), and they are not
+\* expanded further (their subtree is the parent's, one step later).
+Next == Len(hist) < Depth /\ ~noop /\ \E st \in Candidates : Do(st)
 
 Spec == Init /\ [][Next]_vars
 
@@ -162,5 +167,5 @@ Emit == hist = <<>> \/ PrintT(ToJson([nslots |-> NSlots, steps |-> hist]))
 \* simulation mode: print only complete walks (TLC evaluates invariants on every candidate successor)
 EmitLeaf == Len(hist) < Depth \/ PrintT(ToJson([nslots |-> NSlots, steps |-> hist]))
 
-View == <<pool, Len(hist)>>
+View == <<pool, Len(hist), IF noop THEN hist[Len(hist)] ELSE <<>>>>
 =============================================================================
